@@ -479,42 +479,53 @@ def load_known():
         return {'known': [], 'fixed': []}
 
 
-def run_streams(prop, streams, info, judge=True, corr=True):
-    """-> (judge_failures, disagreements, known_hits, stats)"""
+def _one_stream(prop, name, ops, ctx, judge, corr):
     J = judges.JUDGES.get(prop)
+    t0 = time.time()
+    impl = runner.run_impl(ops)
+    t1 = time.time()
+    model, note = None, None
+    if corr:
+        try:
+            model = runner.run_model(ops)
+        except runner.InfraError as e:
+            note = 'model driver: %s' % e
+    t2 = time.time()
+    disag = [(name, i, ops[i], impl[i], model[i]) for i in runner.compare(ops, impl, model)] if model is not None else []
+    fails, known = [], []
+    if judge and J:
+        c = dict(ctx)
+        fails = [(name, f) for f in J(ops, impl, c)]
+        known = [(name,) + tuple(kh) for kh in c.get('known_hits', [])]
+    kinds, nontriv = {}, set()
+    for o, r in zip(ops, impl):
+        op = o.split()[0]
+        kind = r.split(' | ')[0].split(' ')
+        kk = op + ':' + (kind[0] if kind[0] != 'err' and kind[0] != 'esc' else ' '.join(kind[:2]))
+        kinds[kk] = kinds.get(kk, 0) + 1
+        if is_nontrivial(o, r):
+            nontriv.add(hashlib.sha1((strip_ids(o) + '|' + r.split(' | ')[0][:60]).encode()).hexdigest())
+    return {'name': name, 'fails': fails, 'disag': disag, 'known': known, 'kinds': kinds, 'nontriv': nontriv, 'note': note,
+            'stat': {'ops': len(ops), 'impl_s': round(t1 - t0, 2), 'model_s': round(t2 - t1, 2)}}
+
+
+def run_streams(prop, streams, info, judge=True, corr=True):
+    """-> (judge_failures, disagreements, known_hits, stats); streams run concurrently (each is two subprocesses)"""
+    from concurrent.futures import ThreadPoolExecutor
     fails, disag, known = [], [], []
     stats = {'ops': 0, 'streams': {}, 'reply_kinds': {}, 'nontrivial': set()}
-    for name, ops, ctx in streams:
-        t0 = time.time()
-        impl = runner.run_impl(ops)
-        t1 = time.time()
-        model = None
-        if corr:
-            try:
-                model = runner.run_model(ops)
-            except runner.InfraError as e:
-                info.setdefault('infra_notes', []).append('model driver: %s' % e)
-                model = None
-        t2 = time.time()
-        if model is not None:
-            for i in runner.compare(ops, impl, model):
-                disag.append((name, i, ops[i], impl[i], model[i]))
-        if judge and J:
-            c = dict(ctx)
-            for f in J(ops, impl, c):
-                fails.append((name, f))
-            for kh in c.get('known_hits', []):
-                known.append((name,) + tuple(kh))
-        # distribution
-        for o, r in zip(ops, impl):
-            op = o.split()[0]
-            kind = r.split(' | ')[0].split(' ')
-            kk = op + ':' + (kind[0] if kind[0] != 'err' and kind[0] != 'esc' else ' '.join(kind[:2]))
-            stats['reply_kinds'][kk] = stats['reply_kinds'].get(kk, 0) + 1
-            if is_nontrivial(o, r):
-                stats['nontrivial'].add(hashlib.sha1((strip_ids(o) + '|' + r.split(' | ')[0][:60]).encode()).hexdigest())
-        stats['ops'] += len(ops)
-        stats['streams'][name] = {'ops': len(ops), 'impl_s': round(t1 - t0, 2), 'model_s': round(t2 - t1, 2)}
+    workers = int(os.environ.get('HPACK_VERIF_JOBS', '6'))
+    with ThreadPoolExecutor(max_workers=workers) as ex:
+        results = list(ex.map(lambda t: _one_stream(prop, t[0], t[1], t[2], judge, corr), streams))
+    for r in results:           # in stream order: the first failure reported is deterministic
+        fails += r['fails']; disag += r['disag']; known += r['known']
+        if r['note']:
+            info.setdefault('infra_notes', []).append(r['note'])
+        for k, v in r['kinds'].items():
+            stats['reply_kinds'][k] = stats['reply_kinds'].get(k, 0) + v
+        stats['nontrivial'] |= r['nontriv']
+        stats['ops'] += r['stat']['ops']
+        stats['streams'][r['name']] = r['stat']
     return fails, disag, known, stats
 
 
@@ -596,6 +607,19 @@ def main():
     boost = 3 if (drift['changed'] or broken) else 1
     # ---------------- streams: correspondence + judge
     streams = streams_for(prop, seed, tier, boost=1)
+    if tier == 'thorough':
+        # further shards of the random streams with independent seeds (the catalogues are deterministic: keep one copy)
+        base_names = {n for n, _, _ in streams}
+        for shard in range(1, 4):
+            for n_, o_, c_ in streams_for(prop, seed * 1000 + shard, tier, boost=1):
+                if not re.search(r'cat|catalogue|transitions|exhaustive|extra|table-big|long-history|big-tables|empty-forms|small', n_):
+                    streams.append(('%s#%d' % (n_, shard), o_, c_))
+        if b['proof_ok']:
+            t_lc = time.time()
+            rc_lc, out_lc = sh(['lake', 'env', 'leanchecker', 'HpackVerif.Props.' + prop], cwd=LEAN, timeout=3600)
+            info['leanchecker'] = {'rc': rc_lc, 'wall_s': round(time.time() - t_lc, 1), 'tail': out_lc.strip().splitlines()[-1][:200] if out_lc.strip() else ''}
+            if rc_lc != 0:
+                broken.append({'what': 'leanchecker', 'detail': out_lc[-400:]})
     fails, disag, known_hits, stats = run_streams(prop, streams, info, corr=b['driver_ok'])
     extra = probes.run(prop, tier, seed, info)          # impl-only probes (C16 cost, C17 buffers, C20 isolation)
     fails += [('probe', f) for f in extra.get('failures', [])]
@@ -741,6 +765,7 @@ def main():
             'search': searched,
             'drift': drift,
             'translate': info.get('translate'),
+            'leanchecker': info.get('leanchecker'),
             'verdict': verdict,
             'exhaustive': False,
         },
